@@ -126,6 +126,46 @@ def run_cases(ctx, cases, *, real_child=False):
         ctx.judge(c, impl, model, spec_ok, nontrivial=n_set >= 2 or has_list, defect=d, what="argv at subprocess.run vs documented semantics")
 
 
+def run_cases_x(ctx, cases):
+    """Extended features (formatter=, allowed_values, readonly, bool on a File-union, conversions / format specs,
+    outargs with a path_template): implementation vs extended model (driver op "runx") vs the documented semantics."""
+    impls = [A.run_impl(c, ctx.scratch, want_cmdline=False) for c in cases]
+    ans = ctx.driver("Argv", [A.model_query_x(c) for c in cases])
+    for k, (c, i) in enumerate(zip(cases, impls)):
+        a = ans[k] if ans is not None else None
+        model = None if a is None else {"argv": A.model_obs_x(a)}
+        if i["define"] is not None and not i["define"].startswith("init:"):
+            ctx.count("x:definition-rejected")
+            ctx.judge(c, {"argv": {"error": i["define"]}}, model, True, nontrivial=False, what="shell.define (extended)")
+            continue
+        impl = {"argv": {"error": i["define"]} if i["define"] else i["argv"]}
+        exp = A.expected_error_x(c)
+        try:
+            want = {"error": exp} if exp else A.spec_argv_x(c)
+        except Exception as e:  # the oracle itself could not be evaluated: a bug of the harness, never a finding
+            raise core.Infra(f"C22 oracle failed on {c}: {e!r}")
+        spec_ok = impl["argv"] == want
+        d = None
+        for fid, rule in (("D26", lambda cc: A.rule_D26(cc, A.is_set_x)), ("D41", A.rule_D41), ("D42", A.rule_D42)):
+            if rule(c):
+                d = fid
+                break
+        for f in c["fields"]:
+            for key, lab in (("formatter", "x:formatter"), ("allowed", "x:allowed_values"), ("readonly", "x:readonly"), ("template", "x:path_template")):
+                if f.get(key):
+                    ctx.count(lab)
+            if f["kind"] == "fbool":
+                ctx.count("x:file-union-bool")
+            if f["argstr"] and any(A._split_key(kk)[1] for kk in A.KEY_RX.findall(f["argstr"])):
+                ctx.count("x:format-spec")
+        if exp:
+            ctx.count("x:expected-error:" + exp)
+        if d:
+            ctx.count("rule:" + d)
+        feat = any(f.get("formatter") or f.get("allowed") or f.get("readonly") or f["kind"] in ("fbool", "out") for f in c["fields"])
+        ctx.judge(c, impl, model, spec_ok, nontrivial=feat, defect=d, what="argv at subprocess.run vs documented semantics (extended features)")
+
+
 def corpus(ctx):
     """Witnesses of the known findings: replayed on the implementation first."""
     known = {f["id"] for f in ctx.known()}
@@ -142,15 +182,23 @@ def corpus(ctx):
 def correspondence(ctx):
     core.assert_repo_loaded()
     corpus(ctx)
-    n = ctx.pick(450, 8000)
+    n = ctx.pick(250, 8000)
     run_cases(ctx, [A.gen_case(ctx.rng, word=A.safe_word) for _ in range(n)])
+    run_cases_x(ctx, A.load_corpus("c22x.jsonl") + [A.gen_case_x(ctx.rng) for _ in range(ctx.pick(150, 5000))])
     if not ctx.quick:
         run_cases(ctx, [A.gen_case(ctx.rng, word=A.safe_word, outargs=False) for _ in range(400)], real_child=True)
 
 
 def search(ctx):
     run_cases(ctx, [A.gen_case(ctx.rng, word=A.safe_word) for _ in range(ctx.pick(3000, 15000))])
+    run_cases_x(ctx, [A.gen_case_x(ctx.rng) for _ in range(ctx.pick(1500, 8000))])
+
+
+def is_x_case(c) -> bool:
+    return any(f.get("formatter") or f.get("allowed") is not None or f.get("readonly") or f.get("template") or f["kind"] in ("fbool", "ro") for f in c["fields"]) or any(
+        f["argstr"] and any(A._split_key(k)[1] for k in A.KEY_RX.findall(f["argstr"])) for f in c["fields"]
+    )
 
 
 def replay(ctx, rec):
-    run_cases(ctx, [rec["case"]])
+    (run_cases_x if is_x_case(rec["case"]) else run_cases)(ctx, [rec["case"]])
